@@ -1,6 +1,6 @@
 """C17 - R-MAX stays optimistic about what it has not tried often enough."""
-from sim.core import Violation, Inconclusive, RandomProxy, patched_random, close
-from sim.models import gen_mdp_spec, MDPView, make_mdp, sibling_mdp_spec
+from sim.core import Violation, Inconclusive, InjectedAbort, RandomProxy, patched_random, close
+from sim.models import gen_mdp_spec, MDPView, make_mdp, sibling_mdp_spec, rotated_probability_spec, update_model_in_place
 from sim.refsolve import game_W
 from sim.ctx import RunCtx, make_scheduler, gen_sched
 from sim import shrink as shr
@@ -28,7 +28,8 @@ def gen_case(rng, tier, idx):
     # mostly moderate discounts; a few per cent close to 1, where planning on the empirical model needs thousands of sweeps
     spec = gen_mdp_spec(rng, proper=True, uniform_actions=True, discounts=(0.99, 0.995, 0.999) if rng.random() < 0.04 else (0.5, 0.8, 0.9, 0.95))
     cfg = dict(m=rng.randint(1, 5), tol=rng.choice((1e-3, 1e-5)), episodes=rng.randint(1, 6) if rng.random() < 0.98 else 0, seed=rng.choice((0, 1, 5, 99, None)),
-               reuse=rng.randrange(1000) if rng.random() < 0.15 else None, alias=rng.choice(('fresh', 'fresh', 'cached', 'shared', 'tuple')), explicit_lists=rng.random() < 0.25)
+               reuse=rng.randrange(1000) if rng.random() < 0.15 else None, alias=rng.choice(('fresh', 'fresh', 'cached', 'shared', 'tuple')),
+               explicit_lists=rng.choice((False, False, False, True, 'swap', 'reversed')), model_update=rng.random() < 0.12)
     plain = idx % 4 == 0
     sched = gen_sched(rng, ('P',) if plain else ('P', 'U', 'R', 'R', 'X'))
     if plain:
@@ -42,7 +43,7 @@ def execute(case, script=None):
     ctx = RunCtx(PROP, view)
     ctx.W = game_W(view)
     ctx.declare_probes('pair_at_exactly_m', 'pair_at_m_minus_1_at_end', 'pair_sampled_beyond_m', 'unknown_pair_at_end',
-                       'episode_from_absorbing_start', 'learner_reused', 'discount_close_to_one', 'explicit_state_list_with_unreachable_states')
+                       'episode_from_absorbing_start', 'learner_reused', 'discount_close_to_one', 'explicit_state_list_with_unreachable_states', 'rerun_after_abort', 'model_updated_in_place', 'explicit_state_list_permuted')
     sched = make_scheduler(case, script, ctx)
     try:
         return _execute(rm, view, case['cfg'], ctx, sched)
@@ -51,7 +52,15 @@ def execute(case, script=None):
 
 
 def _execute(rm, view, cfg, ctx, sched):
-    mdp = make_mdp(view, ctx, alias=cfg.get('alias', 'fresh'), explicit_lists=cfg.get('explicit_lists', False))
+    rview = None
+    if cfg.get('model_update'):
+        rview = MDPView(rotated_probability_spec(view.spec))
+        if any(w == float('inf') for w in game_W(rview).values()):
+            rview = None
+    if rview is not None:
+        mdp = make_mdp(rview, ctx, alias=cfg.get('alias', 'fresh'), explicit_lists=cfg.get('explicit_lists', False), stored_dists=True)
+    else:
+        mdp = make_mdp(view, ctx, alias=cfg.get('alias', 'fresh'), explicit_lists=cfg.get('explicit_lists', False))
     g = view.gamma
     if g >= 0.99:
         ctx.probe('discount_close_to_one')
@@ -72,6 +81,8 @@ def _execute(rm, view, cfg, ctx, sched):
     listed = set(range(view.N)) if cfg.get('explicit_lists') else reach0      # the model's state list
     if cfg.get('explicit_lists') and len(reach0) < view.N:
         ctx.probe('explicit_state_list_with_unreachable_states')
+    if cfg.get('explicit_lists') in ('swap', 'reversed') and view.N >= 4:
+        ctx.probe('explicit_state_list_permuted')
     cells = [view.R[s, a, t] for (s, a), d in view.T.items() if s in listed for t in d]
     if len(cells) < len(listed) * view.spec['nA'] * len(listed):
         cells.append(0.0)
@@ -183,7 +194,37 @@ def _execute(rm, view, cfg, ctx, sched):
         try:
             learner = rm.RMAX(episodes=cfg['episodes'], rmax=rmax, num_transition_samples=m, bellman_convergence_diff=tol,
                               seed=cfg['seed'], event_listener_class=L)
+            if rview is not None:
+                # fault F9 for models: trained on with rotated probabilities first, then the model's own distribution
+                # objects are updated in place to this workload's probabilities (only if the learner's rmax assertion
+                # holds for the rotated model too, i.e. the same transitions stay reachable)
+                import numpy as _np
+                if float(_np.max(mdp.reward_matrix)) == rmax and len(mdp.state_list) == len(listed):
+                    sched.fire('F9_model_updated_in_place')
+                    ctx.probe('model_updated_in_place')
+                    state['main'] = False
+                    W0, ctx.W = ctx.W, game_W(rview)
+                    rm.RMAX(episodes=cfg['episodes'], rmax=rmax, num_transition_samples=m, bellman_convergence_diff=tol,
+                            seed=cfg['seed'], event_listener_class=L).train_on(mdp)
+                    ctx.W = W0
+                    state['main'] = True
+                update_model_in_place(mdp, view)
+                for attr in [a for a in vars(mdp) if a.startswith('_cached_') or a.startswith('_cache_')]:
+                    delattr(mdp, attr)        # the model changed: its memoised matrix views are the user's to drop
             sib = sibling_mdp_spec(view.spec, cfg['reuse']) if cfg.get('reuse') is not None else None
+            if sib is not None and cfg['reuse'] % 2 == 1:
+                # fault F6: a first run on the SAME problem and objects is aborted by an exception thrown from a model call-back
+                # (the library analogue of a crash); the real run then uses the same learner and model objects
+                sib = None
+                ctx.probe('rerun_after_abort')
+                state['main'] = False
+                hook = ctx.abort_after(1 + cfg['reuse'] % 60)
+                try:
+                    learner.train_on(mdp)
+                except InjectedAbort:
+                    pass
+                ctx.disarm(hook)
+                state['main'] = True
             if sib is not None:
                 # fault F5: the same learner object is first trained on a sibling problem (same keys, one more absorbing state)
                 sview = MDPView(sib)
